@@ -3,6 +3,7 @@ import contextlib
 import io
 import itertools
 import json
+import re
 import sys
 import os
 import random
@@ -220,8 +221,9 @@ def _orderable(labels):
     return True
 
 
-def _cli_find(path, toks):
-    """run `signac find <toks>` in-process with the project directory as cwd; (sorted printed ids, exit code)"""
+def _cli_find(path, toks, sub=("find",)):
+    """run `signac find <toks>` (or another sub-command) in-process with the project directory as cwd;
+    (sorted printed words, exit code)"""
     import signac.__main__ as M
 
     out, err = io.StringIO(), io.StringIO()
@@ -229,7 +231,7 @@ def _cli_find(path, toks):
     code = 0
     try:
         os.chdir(path)
-        sys.argv = ["signac", "find"] + list(toks)
+        sys.argv = ["signac"] + list(sub) + list(toks)
         with contextlib.redirect_stdout(out), contextlib.redirect_stderr(err):
             try:
                 M.main()
@@ -392,6 +394,12 @@ def run_case(case, ctx):
                             printed, code = _cli_find(project.path, toks)
                             if code != 0 or printed != sorted(ids_m):
                                 fails.append("`signac find %s` exits %s and prints %s, the mapping %r selects %s"
+                                             % (" ".join(map(repr, toks)), code, printed, want, sorted(ids_m)))
+                            # another front end with a selection: `signac diff -f <tokens>` lists exactly the selected jobs
+                            printed, code = _cli_find(project.path, toks, sub=["diff", "-f"]) if toks else (sorted(ids_m), 0)
+                            printed = [x for x in printed if re.fullmatch(r"[0-9a-f]{32}", x)]
+                            if code != 0 or printed != sorted(ids_m):
+                                fails.append("`signac diff -f %s` exits %s and lists %s, the mapping %r selects %s"
                                              % (" ".join(map(repr, toks)), code, printed, want, sorted(ids_m)))
                         if toks and all(t and not any(c.isspace() for c in t) for t in toks) and len(toks) != 1:
                             text = " ".join(toks)
